@@ -61,6 +61,31 @@ func init() {
 
 // bitTest recognises literals `(load(f) & X) == X` (set) / `!= X` (clear).
 func bitTest(l Lit, f *types.Var) (x ssa.Value, set bool, ok bool) {
+	// a named predicate `func (e T) has(flag T) bool { return e&flag == flag }` applied to the field
+	if call, isCall := l.Cond.(*ssa.Call); isCall {
+		if callee := call.Call.StaticCallee(); callee != nil && callee.Blocks != nil && len(callee.Blocks) == 1 && len(callee.Params) == 2 && len(call.Call.Args) == 2 {
+			for _, in := range callee.Blocks[0].Instrs {
+				ret, isRet := in.(*ssa.Return)
+				if !isRet || len(ret.Results) != 1 {
+					continue
+				}
+				cmp, isCmp := stripConv(ret.Results[0]).(*ssa.BinOp)
+				if !isCmp || (cmp.Op != token.EQL && cmp.Op != token.NEQ) {
+					continue
+				}
+				p0, p1 := ssa.Value(callee.Params[0]), ssa.Value(callee.Params[1])
+				isAnd := func(v ssa.Value) bool {
+					bo, ok := stripConv(v).(*ssa.BinOp)
+					return ok && bo.Op == token.AND && ((stripConv(bo.X) == p0 && stripConv(bo.Y) == p1) || (stripConv(bo.X) == p1 && stripConv(bo.Y) == p0))
+				}
+				if (isAnd(cmp.X) && stripConv(cmp.Y) == p1) || (isAnd(cmp.Y) && stripConv(cmp.X) == p1) {
+					if loadOfField(call.Call.Args[0], f) {
+						return call.Call.Args[1], (cmp.Op == token.EQL) == l.Pos, true
+					}
+				}
+			}
+		}
+	}
 	op, a, b, isCmp := l.cmp()
 	if !isCmp || (op != token.EQL && op != token.NEQ) {
 		return nil, false, false
